@@ -131,6 +131,17 @@ func (n *Node) arg(i int) *Node {
 	}
 	return n.Args[i]
 }
+
+// hasFlag: generator-only string arguments after the first argument of a constructor (they select a variant of the
+// bytes that the summariser reads back as the same source term)
+func (n *Node) hasFlag(f string) bool {
+	for i := 1; i < len(n.Args); i++ {
+		if a := n.Args[i]; a != nil && a.Kind == 's' && a.S == f {
+			return true
+		}
+	}
+	return false
+}
 func (n *Node) str() string {
 	if n.Kind != 's' {
 		panic(fmt.Sprintf("string expected, got kind %c ctor %s", n.Kind, n.Ctor))
